@@ -35,7 +35,8 @@ ASSUMPTIONS = ["fragment hypotheses (decidable, checked per case): Stratified, L
                "one clock reading per invocation; fallback timer disabled; a single program per connection",
                "ALU is a shared parameter (libccp's arithmetic and fault rules, incl. its incomplete multiplication-overflow test)"]
 LEVEL_TEXT = ("PARTIAL. Machine-checked proof (Lean 4), C01.run_correct_from_bytes: for every program of the fragment InOracle - pure "
-              "conditions; statements binding an expression, a conditional (if / !if) or an ewma to a name, where expressions may contain "
+              "conditions; statements that bind an expression, a conditional (if / !if) or an ewma to a name, or are a BARE operator expression "
+              "(evaluated for its faults and nested binds, value discarded), where expressions may contain "
               "plain AND guarded (if / !if / ewma) binds NESTED as values as long as no operator reads, as its left operand, a variable "
               "its right operand assigns (noHazard) - with literals that fit (LitsOk), targets that are not primitives nor __eventFlag (WritesOk), literal initial "
               "values, <= 6 locals, >= 1 event, <= 256 events/instructions, that the compiler and the encoder accept: the libccp datapath "
